@@ -52,8 +52,22 @@ func (c c09) Run(ctx *core.Ctx) error {
 			}
 		}
 	}
+	// large tables: one damaged record at a time, every record of the table
+	bigNs := []int{4101}
+	if ctx.Tier == "thorough" {
+		bigNs = []int{4096, 4097, 4098, 4099, 4100, 4101, 4102, 4103, 8195}
+	}
+	const bigShards = 8
+	for _, n := range bigNs {
+		for _, mode := range []string{"load", "read"} {
+			for sh := 0; sh < bigShards; sh++ {
+				cases = append(cases, core.J(c09Case{Table: -n, Mode: mode, Loader: "default", OnlyPos: sh, OnlyVal: bigShards}))
+			}
+		}
+	}
+	ctx.Ev.Bounds["large_tables_records"] = bigNs
 	ctx.Ev.Level = "fault_enumeration"
-	ctx.Ev.Rule = "3 tables of 3 records with non-empty values (one containing the marker bytes, one with 300-byte values) x 4 data compressions x {verify-on-load (default), skip-on-load + verify-on-read} x loaders; damage of data.rio = every byte offset x {8 bit flips, 00, ff, 91, 8d, 4c}, every truncation length, every swap of two whole records; after each damage: open, Get of every key, full Scan, ScanRange(all) - each step must fail or return exactly the written value. distinct = (table, config, damage)"
+	ctx.Ev.Rule = "3 tables of 3 records with non-empty values (one containing the marker bytes, one with 300-byte values) x 4 data compressions x {verify-on-load (default), skip-on-load + verify-on-read} x loaders; damage of data.rio = every byte offset x {8 bit flips, 00, ff, 91, 8d, 4c}, every truncation length, every swap of two whole records; after each damage: open, Get of every key, full Scan, ScanRange(all), then Get of every key twice more - each step must fail or return exactly the written value. Large tables (record counts in bounds): for every record of the table one bit of its value flipped, then open and Get of that key twice. distinct = (table, config, damage)"
 	ctx.Ev.Bounds["loaders"] = loaders
 	rs := ctx.Pmap(cases)
 	ctx.Fold(rs, cases)
@@ -69,6 +83,9 @@ func (c c09) Case(w *core.WCtx, payload json.RawMessage) core.Result {
 	var cs c09Case
 	json.Unmarshal(payload, &cs)
 	var r core.Result
+	if cs.Table < 0 {
+		return c09Big(w, cs)
+	}
 	table := c09Tables()[cs.Table]
 	for i := range table {
 		if table[i].K == nil {
@@ -141,17 +158,21 @@ func (c c09) Case(w *core.WCtx, payload json.RawMessage) core.Result {
 		defer rd.Close()
 		outcome = "opened-all-correct"
 		failed := false
-		for _, e := range table {
-			r.Evals++
-			v, err := rd.Get(e.K)
-			if err != nil {
-				failed = true
-				continue
-			}
-			if !recEq(v, e.V) {
-				viol(nc, "%s: Get(%s) returned %s without error, written %s", what, keyStr(e.K), recStr(v), recStr(e.V))
+		getAll := func(round string) {
+			for _, e := range table {
+				r.Evals++
+				v, err := rd.Get(e.K)
+				if err != nil {
+					failed = true
+					continue
+				}
+				if !recEq(v, e.V) {
+					viol(nc, "%s: %sGet(%s) returned %s without error, written %s", what, round, keyStr(e.K), recStr(v), recStr(e.V))
+				}
 			}
 		}
+		getAll("")
+		getAll("second ") // the answer for a damaged record must not depend on having been asked before
 		scanCheck := func(name string, it sstables.SSTableIteratorI, err error, from int) {
 			r.Evals++
 			if err != nil {
@@ -185,6 +206,7 @@ func (c c09) Case(w *core.WCtx, payload json.RawMessage) core.Result {
 		scanCheck("ScanRange(all)", it, err, 0)
 		it, err = rd.ScanStartingAt(table[1].K)
 		scanCheck("ScanStartingAt(second)", it, err, 1)
+		getAll("after the scans, ")
 		if failed {
 			outcome = "opened-some-steps-failed"
 		}
@@ -246,6 +268,81 @@ func (c c09) Case(w *core.WCtx, payload json.RawMessage) core.Result {
 	r.Outcome = fmt.Sprintf("mode=%s ok=%v", cs.Mode, len(r.Viol) == 0)
 	if cs.Table == 0 && cs.Comp == 2 && cs.Mode == "read" {
 		r.Sample = string(core.J(map[string]any{"table": kvsStr(table), "data_file_bytes": len(orig), "compression": "snappy", "mode": cs.Mode}))
+	}
+	return r
+}
+
+// c09Big: a table of -cs.Table records; for every record (of this shard) one bit of the last value byte is
+// flipped; the table is opened and the key read twice.
+func c09Big(w *core.WCtx, cs c09Case) core.Result {
+	var r core.Result
+	n := -cs.Table
+	table := make([]kv, n)
+	for i := range table {
+		table[i] = kv{[]byte(fmt.Sprintf("key-%06d", i)), []byte(fmt.Sprintf("value-of-record-%06d", i))}
+	}
+	dir := w.Dir()
+	if err := writeTable(dir, table, tblW{Writer: "stream", DataComp: 0, IndexComp: 0, WBuf: 4096}); err != nil {
+		r.Viol = append(r.Viol, core.Violation{Desc: "cannot build table: " + err.Error()})
+		return r
+	}
+	dataPath := filepath.Join(dir, sstables.DataFileName)
+	orig := readAll(dataPath)
+	offs := []int{8}
+	for range table {
+		off := offs[len(offs)-1]
+		hl, pl, ok := parseHeaderLen(orig, uint64(off), false)
+		if !ok {
+			r.Viol = append(r.Viol, core.Violation{Desc: "cannot parse data file layout"})
+			return r
+		}
+		offs = append(offs, off+hl+pl)
+	}
+	if offs[n] != len(orig) {
+		r.Viol = append(r.Viol, core.Violation{Desc: fmt.Sprintf("layout mismatch %d vs %d", offs[n], len(orig))})
+		return r
+	}
+	rc := tblR{Loader: cs.Loader, RBuf: 4096}
+	if cs.Mode == "read" {
+		rc.SkipOnLoad, rc.VerifyOnRead = true, true
+	}
+	buf := make([]byte, len(orig))
+	for i := cs.OnlyPos; i < n; i += cs.OnlyVal {
+		copy(buf, orig)
+		pos := offs[i+1] - 1 // last byte of the record = last byte of its value
+		buf[pos] ^= 0x01
+		os.WriteFile(dataPath, buf, 0o644)
+		r.Traces++
+		r.Keys = append(r.Keys, core.HashKey("big", fmt.Sprint(n, cs.Mode, i)))
+		func() {
+			defer func() {
+				if p := recover(); p != nil {
+					r.Viol = append(r.Viol, core.Violation{Desc: fmt.Sprintf("table of %d records mode=%s, record %d damaged: panic: %v", n, cs.Mode, i, p)})
+				}
+			}()
+			rd, err := openTable(dir, rc)
+			r.Evals++
+			if err != nil {
+				return
+			}
+			defer rd.Close()
+			for round := 0; round < 2; round++ {
+				v, err := rd.Get(table[i].K)
+				r.Evals++
+				if err == nil && !recEq(v, table[i].V) {
+					r.Viol = append(r.Viol, core.Violation{Desc: fmt.Sprintf("table of %d records mode=%s: byte %d (last value byte of record %d) altered, the table opened and Get(%s) #%d returned %s without error, written %s",
+						n, cs.Mode, pos, i, keyStr(table[i].K), round+1, recStr(v), recStr(table[i].V)), Case: core.J(cs)})
+				}
+			}
+		}()
+		if len(r.Viol) > 3 {
+			break
+		}
+	}
+	os.WriteFile(dataPath, orig, 0o644)
+	r.Outcome = fmt.Sprintf("big mode=%s ok=%v", cs.Mode, len(r.Viol) == 0)
+	if cs.OnlyPos == 0 {
+		r.Sample = string(core.J(map[string]any{"records": n, "mode": cs.Mode, "damage": "one bit of the last value byte, every record in turn"}))
 	}
 	return r
 }
